@@ -107,7 +107,7 @@ func C04() int {
 			key = string(sn.Item.Raw) + sn.Flags.String()
 		}
 		c.Eval(key)
-		if sn.Variant < 2 && sn.Item.Kind == "other" {
+		if sn.Item.Kind == "other" {
 			c.Sample(map[string]any{"flags": sn.Flags.String(), "input": short(sn.Item.Raw, 500), "output": short(sn.Res.Out, 500)})
 		}
 	})
